@@ -13,7 +13,7 @@ func users(o menuOpts) [][]byte {
 	if o.shards > 1 {
 		u = append(u, uni.C1)
 	}
-	return u
+	return append(u, o.extra...)
 }
 
 func dedupQ(qs ...int64) []int64 {
